@@ -58,6 +58,19 @@ def run(seed=0, rounds=40):
         sel = [rnd.randrange(n) for _ in range(rnd.randint(0, 6))]
         got = ser.iloc[[int(q) for q in sel]]
         ok("series.iloc[rows]", len(got) == len(sel) and all(got.iloc[i] == ser.iloc[sel[i]] for i in range(len(sel))))
+        # splev with a unit coefficient vector is a function of the point, the knots, the degree and the index only (row-local)
+        from scipy.interpolate import splev as _splev
+        dg = rnd.randint(0, 3)
+        kn = np.sort(np.concatenate(([0.0, 1.0] * (dg + 1), rng.uniform(0, 1, size=rnd.randint(0, 3)))))
+        nb = len(kn) - (dg + 1)
+        e_ = np.zeros(nb)
+        ei = rnd.randrange(nb)
+        e_[ei] = 1
+        xs = rng.uniform(0, 1, size=rnd.randint(1, 6))
+        pick = [rnd.randrange(len(xs)) for _ in range(rnd.randint(0, 5))]
+        full = _splev(xs, (kn, e_, dg))
+        ok("splev row-local", np.allclose(_splev(xs[pick], (kn, e_, dg)), full[pick]) and
+           all(np.isclose(float(_splev(xs[q], (kn, e_, dg))), full[q]) for q in range(len(xs))))
         # stacking
         V = np.vstack((A[:lo, :], np.zeros((1, m)), A[lo:, :]))
         ok("vstack", V.shape == (n + 1, m) and np.array_equal(V[:lo], A[:lo]) and not V[lo].any() and np.array_equal(V[lo + 1:], A[lo:]))
